@@ -26,7 +26,7 @@ def budget(tier):
 def strategy(tier):
     @st.composite
     def s(draw):
-        c, n, tp = draw(gens.cfg(max_dim=320 if tier == "thorough" else 256, min_dim=130, frames=(3, 16), allow_twopass=False, allow_rc=False, exclude=("AQ1", "GRAIN", "SRES", "2PASS"), lps=(1,),
+        c, n, tp = draw(gens.cfg(max_dim=320 if tier == "thorough" else 256, min_dim=130, frames=(3, 16), allow_twopass=False, allow_rc=False, exclude=("AQ1", "GRAIN", "SRES", "2PASS", "16BP"), lps=(1,),
                                  presets=(8, 8, 7, 6, 5, 4), slow_p=0))
         c.pop("pic_based_rate_est", None)
         if c.get("enable_overlays") and draw(st.booleans()):
